@@ -16,10 +16,12 @@ CInitS ==
     /\ GW \in Int
     /\ Far \in Int
     /\ ReqHosts = Gen(2)
+    /\ BadHosts = Gen(1)
     /\ StaticHosts = Gen(1)
     /\ MaxStatic \in Nat
     /\ LeaseT \in Nat
     /\ GenNameOf = Gen(5)
+    /\ AltNameOf = Gen(5)
     /\ ConstOK
 
 IndInitS == ls = Gen(3) /\ disk = ls /\ IndInv
@@ -31,10 +33,12 @@ CInitQ ==
     /\ GW \in Int
     /\ Far \in Int
     /\ ReqHosts = Gen(2)
+    /\ BadHosts = Gen(1)
     /\ StaticHosts = Gen(2)
     /\ MaxStatic \in Nat
     /\ LeaseT \in Nat
     /\ GenNameOf = Gen(7)
+    /\ AltNameOf = Gen(7)
     /\ ConstOK
 
 IndInitQ == ls = Gen(3) /\ disk = ls /\ IndInv
@@ -47,10 +51,12 @@ CInitT ==
     /\ GW \in Int
     /\ Far \in Int
     /\ ReqHosts = Gen(3)
+    /\ BadHosts = Gen(2)
     /\ StaticHosts = Gen(3)
     /\ MaxStatic \in Nat
     /\ LeaseT \in Nat
     /\ GenNameOf = Gen(8)
+    /\ AltNameOf = Gen(8)
     /\ ConstOK
 
 IndInitT == ls = Gen(4) /\ disk = ls /\ IndInv
